@@ -220,14 +220,26 @@ check_history.last = {}
 
 
 # --------------------------------------------------------------------------- generator
-def gen_search_case(rng, i, thorough):
+def gen_search_case(rng, i, thorough, style=None):
     """homogeneous / heterogeneous histories with moderate epsilon; both parities; many small groups
     (amplifies a per-group index error beyond eps_error)"""
     for _ in range(200):
-        style = ["homog", "hetero", "many-groups", "gauss", "homog-odd-even", "recurring", "gauss-many"][i % 7]
+        forced = style
+        style = forced or ["homog", "hetero", "many-groups", "gauss", "homog-odd-even", "recurring", "gauss-many"][i % 7]
         ee = 10 ** rng.uniform(-3, -1) if thorough else 10 ** rng.uniform(-2, -1)
         delta = 10 ** rng.uniform(-9, -3)
-        if style == "gauss":
+        if style == "gauss-lengths":
+            # a short phase and a long phase at clearly different noise levels, in either order (and sometimes a third, medium one):
+            # each segment's step count must stay with ITS mechanism whatever order the composition processes them in; exact truth
+            sa = rng.uniform(3.0, 8.0)
+            sb = sa * rng.choice([rng.uniform(2.0, 4.0), 1 / rng.uniform(2.0, 3.0)])
+            ns, nb = rng.randint(1, 4), rng.randint(20, 60)
+            hist = [(round(sa, 3), 1.0, ns), (round(sb, 3), 1.0, nb)]
+            if rng.random() < 0.4:
+                hist.insert(rng.randrange(3), (round(sa * rng.uniform(1.2, 1.8), 3), 1.0, rng.randint(6, 12)))
+            if rng.random() < 0.3:
+                hist.reverse()
+        elif style == "gauss":
             k = rng.randint(1, 4)
             hist = [(round(rng.uniform(3.0, 30.0), 3), 1.0, rng.randint(1, 40)) for _ in range(k)]
         elif style == "recurring":
